@@ -211,6 +211,7 @@ pub fn c05() -> PropDef {
         assumptions: COMMON_ASSUMPTIONS,
         tiny: no_tiny,
         long: None,
+        growth: None,
     }
 }
 
@@ -268,8 +269,7 @@ fn check_c09(case: &Case) -> Verdict {
             }
         }
         (Term::CollectInto { .. }, Ok(Out::Seq(g))) => {
-            let mut e = prefix_values(case, &r.term);
-            e.extend(out.iter().copied());
+            let e = collect_into_expected(case, &r.term, &out);
             if *g != e {
                 v.fail = Some(Verdict::fail(format!("sequential collect_into differs: {}", first_diff(g, &e)), sig("value")));
             }
@@ -432,5 +432,6 @@ pub fn c09() -> PropDef {
         assumptions: COMMON_ASSUMPTIONS,
         tiny: no_tiny,
         long: None,
+        growth: None,
     }
 }
